@@ -756,7 +756,8 @@ func (x *walker) statementB(budget int) {
 	// victims
 	var cand []int
 	for p, e := range x.w.ent {
-		if e.St != "Releasing" && x.w.sc.Kinds[p-1].K != "resv" {
+		// victims hold resources: pods that are only nominated (Pipelined) are not evicted
+		if e.St != "Releasing" && e.St != "Pipelined" && x.w.sc.Kinds[p-1].K != "resv" {
 			cand = append(cand, p)
 		}
 	}
